@@ -287,6 +287,23 @@ static void genCommon(Rng& r, KV& kv, bool faults) {
 static void genC27(Rng& r, KV& kv, const Opts&) {
   genCommon(r, kv, false);
 }
+// C28: shapes in which limits bind: several pool threads, more items than the limit, longer bodies
+static void genC28(Rng& r, KV& kv, const Opts&) {
+  genCommon(r, kv, false);
+  if (r.chance(2, 3)) {
+    long n = r.range(2, 3);
+    kv.set("n", n);
+    long nst = std::max<long>(2, kv.i("nst"));
+    kv.set("nst", nst);
+    kv.set("items", r.range(6, 14));
+    kv.set("form", 0L);
+    for (long s = 0; s < nst; ++s) {
+      kv.set("lim" + std::to_string(s), r.pick<long>({1, 2, 2, 3, 3}));
+      kv.set("fm" + std::to_string(s), 0L);
+    }
+    kv.set("burn", r.range(6, 25));
+  }
+}
 // C29: fault enumeration axis: throwing stage (every stage incl. generator and sink) x position
 // (first / middle / last item, plus random)
 static void genC29(Rng& r, KV& kv, const Opts&) {
@@ -423,7 +440,7 @@ static void runC29(Case& c) {
 
 static const vf::Prop kProps[] = {
     {"C27", "pipe", genC27, runC27, vf::kE1, 2500, 80000, "at least two items were in flight in different stages at the same time"},
-    {"C28", "pipe", genC27, runC28, vf::kE1, 2500, 80000, "items were in flight in two stages at once and some stage with limit >= 2 reached its limit"},
+    {"C28", "pipe", genC28, runC28, vf::kE1, 2500, 80000, "items were in flight in two stages at once and some stage with limit >= 2 reached its limit"},
     {"C29", "fault", genC29, runC29, vf::kE1, 2500, 60000, "a stage threw while items were in flight in at least two stages"},
 };
 
